@@ -7,6 +7,7 @@ import Tahoe.Immutable.IntegrityBytes
         → `healthy=<0|1> recoverable=<0|1> good=<n> corrupt=<n> incompatible=<n>`     (`Checker._format_results`)
   `verify <asis|fixed> <hashtree asis|fixed> <uebhash-hex> <k> <n> <size> <shnum> <share-hex>`
         → `good` | `corrupt` | `incompatible` | `raised`                  (`Checker._download_and_verify`)
+  `repairdecision <k> <n> <results as for fmt>` → `attempt=<0|1>`       (`CiphertextFileNode._maybe_repair`)
   `postrepair <k> <n> <pre-repair sharemap> <upload sharemap>`  (sharemap = `shnum:srv.srv;…` | `-`)
         → `healthy=<0|1> recoverable=<0|1> good=<n>`                      (`_gather_repair_results`)
   `repairparams <k> <n> <size> <validated-ueb-hex|->` → `<k> <N> <segment size>` | `none`   (`Repairer._got_segsize`)
@@ -61,6 +62,10 @@ def handle : List String → String
       match verifyShare realEnv cfg vc pick0 cap shnum (vviewOf cap sh) with
       | .good => "good" | .corrupt => "corrupt" | .incompatible => "incompatible" | .raised => "raised"
     | _, _, _, _, _, _, _, _ => "bad-op"
+  | ["repairdecision", k, n, rs] =>
+    match k.toNat?, n.toNat?, (if rs == "-" then some [] else (rs.splitOn ";").mapM parseResult) with
+    | some k, some n, some rs => s!"attempt={b01 (repairDecision k n rs)}"
+    | _, _, _ => "bad-op"
   | ["postrepair", k, n, pre, ur] =>
     -- pre / ur: sharemaps `shnum:srv.srv;shnum:srv` | `-`
     let parseSm : String → Option (List (Nat × List Nat)) := fun t =>
